@@ -770,6 +770,35 @@ theorem reject_canon_btsd_kind (p : Primary) (hp : p.wf = true ∧ p.crc.wire = 
   simp only [List.cons_append, List.nil_append]
   exact ⟨.other, reject_of_canon_err p hp _ (by rw [UInt8.toNat_ofNat']; omega) _ .other _ this⟩
 
+/-- **C19 (extension-block data: the required item followed by anything).** The data byte string of
+    a bundle age / hop count / previous node block must hold exactly one item: a well-formed item
+    of the right kind followed by at least one more byte does not decode (`TrailingData`). -/
+theorem decodeBtsd_trailing (x : UInt8) (xs : Bytes) :
+    (∀ a, a < 18446744073709551616 → decodeBtsd 7 (encUint a ++ x :: xs) = .err .trailing) ∧
+    (∀ e : Eid, e.wf = true → decodeBtsd 6 (encEid e ++ x :: xs) = .err .trailing) := by
+  constructor
+  · intro a ha
+    have := readU64_enc a ha (x :: xs) 128
+    simp [decodeBtsd, PAYLOAD_BLOCK, BUNDLE_AGE_BLOCK, fromSlice, this, Res.map]
+  · intro e he
+    have := readEid_enc e he (x :: xs) 128 (by omega)
+    simp [decodeBtsd, PAYLOAD_BLOCK, BUNDLE_AGE_BLOCK, HOP_COUNT_BLOCK, PREVIOUS_NODE_BLOCK, fromSlice, this, Res.map]
+
+/-- at bundle level: a bundle age block whose data is an unsigned integer followed by more bytes -/
+theorem reject_canon_age_trailing (p : Primary) (hp : p.wf = true ∧ p.crc.wire = true)
+    (num fl t a : Nat) (hn : num < 18446744073709551616) (hf : fl < 256) (ht : t < 256) (ha : a < 18446744073709551616)
+    (x : UInt8) (xs : Bytes) (hl : (encUint a ++ x :: xs).length < 18446744073709551616)
+    (count : Nat) (hc : count < 24) (hc5 : 5 ≤ count) (tail : Bytes) :
+    ∃ e, decodeBundle ([0x9f] ++ (encPrimary p ++ (encArrayHead count ++
+      (encUint 7 ++ (encUint num ++ (encUint fl ++ (encUint t ++ (encBytes (encUint a ++ x :: xs) ++ tail)))))))) = .err e := by
+  have hd := (decodeBtsd_trailing x xs).1 a ha
+  obtain ⟨n, rfl⟩ : ∃ n, count = n + 5 := ⟨count - 5, by omega⟩
+  have hv := visitCanon_bad_data 7 num fl t (by omega) hn hf ht _ hl .trailing hd n tail
+  have := readCanon_of_visit_err (n + 5) hc _ .other ⟨tail, 126⟩ hv
+  rw [encArrayHead_small _ hc]
+  simp only [List.cons_append, List.nil_append]
+  exact ⟨.other, reject_of_canon_err p hp _ (by rw [UInt8.toNat_ofNat']; omega) _ .other _ this⟩
+
 /-! ### endpoint-ID faults inside the data of a previous node block -/
 
 theorem readEid_scheme_unknown_d (code : Nat) (hc : code < 24) (hne : code ≠ 1 ∧ code ≠ 2) (x : Bytes) (d : Nat) :
